@@ -5,6 +5,7 @@ import (
 	"math/rand"
 	"os"
 	"sort"
+	"strconv"
 	"strings"
 	"sync"
 	"time"
@@ -145,6 +146,11 @@ func (e *Explorer) Run(harness string, maxPaths int, maxSamples int) (*HarnessRe
 	if fn == nil {
 		return nil, fmt.Errorf("harness %s not found in %s", harness, e.Prog.PkgPath)
 	}
+	seenViol := map[string]bool{}
+	maxViol := 8
+	if v, err := strconv.Atoi(os.Getenv("SYMGO_MAXVIOL")); err == nil && v > 0 {
+		maxViol = v
+	}
 	res := &HarnessResult{Name: harness, Kinds: map[string]int{}, KnownHits: map[string][]Outcome{},
 		CoverSamples: map[string]Outcome{}, Funcs: map[string]int{}, Intrinsics: map[string]int{}, Distinct: map[string]bool{}}
 	t0 := time.Now()
@@ -207,7 +213,11 @@ func (e *Explorer) Run(harness string, maxPaths int, maxSamples int) (*HarnessRe
 					return
 				}
 			}
-			if len(res.Violations) < 8 {
+			// keep violations that differ in message or in the harness's draws (schedules and solver
+			// models of the same draws are not interesting twice)
+			key := firstLine(out.Msg) + fmt.Sprint(ConcreteDraws(out.Draws, out.Model))
+			if !seenViol[key] && len(res.Violations) < maxViol {
+				seenViol[key] = true
 				res.Violations = append(res.Violations, out)
 			}
 			if e.StopEarly {
